@@ -107,7 +107,6 @@ Record gst := {
   incs : list inc;          (* by incarnation id *)
   (* ghost, never read by a step *)
   unl : list unlink_ev;
-  creator_failed : bool;    (* a handle that still owned the storage it created lost reserve_port *)
   saw_marked : bool;        (* a remove_state found the byte already MarkedForDestruction *)
   stolen : list hid         (* ports whose role bit was cleared by a handle other than themselves
                                (forced removal, or the Drop of a port that had itself been removed) *)
@@ -128,6 +127,7 @@ Inductive pc :=
 | Idle
 | CrLoad (h : handle) (p : params)          (* reserve_port: state.load *)
 | CrCas (h : handle) (p : params) (c : N)   (* reserve_port: compare_exchange(c, c | bit) *)
+| CrFail (h : handle) (code : N)            (* reserve_port failed: storage.release_ownership() *)
 | CrOwn (h : handle) (p : params)           (* storage.has_ownership() *)
 | CrRel (h : handle)                        (* storage.release_ownership() *)
 | RsLoad (h : handle) (w : why)             (* remove_state: state.load *)
@@ -150,7 +150,7 @@ Definition st_of (g : gst) (i : nat) : N := i_st (get_inc g i).
 
 Definition set_inc (g : gst) (i : nat) (x : inc) : gst :=
   {| cur := cur g; incs := upd (incs g) i x; unl := unl g;
-     creator_failed := creator_failed g; saw_marked := saw_marked g; stolen := stolen g |}.
+     saw_marked := saw_marked g; stolen := stolen g |}.
 
 Definition holder (x : inc) (r : role) : option hid := match r with RSend => i_hs x | RRecv => i_hr x end.
 Definition set_holder (x : inc) (r : role) (st : N) (v : option hid) : inc :=
@@ -180,24 +180,21 @@ Definition hid_eqb (a b : hid) : bool := Nat.eqb (fst a) (fst b) && Nat.eqb (snd
 Definition steal (g : gst) (old : option hid) (me : hid) : gst :=
   match old with
   | Some o => if hid_eqb o me then g
-              else {| cur := cur g; incs := incs g; unl := unl g; creator_failed := creator_failed g;
+              else {| cur := cur g; incs := incs g; unl := unl g;
                       saw_marked := saw_marked g; stolen := o :: stolen g |}
   | None => g
   end.
 
-Definition flag_creator (g : gst) (h : handle) : gst :=
-  {| cur := cur g; incs := incs g; unl := unl g;
-     creator_failed := creator_failed g || h_own h; saw_marked := saw_marked g; stolen := stolen g |}.
 Definition flag_marked (g : gst) : gst :=
   {| cur := cur g; incs := incs g; unl := unl g;
-     creator_failed := creator_failed g; saw_marked := true; stolen := stolen g |}.
+     saw_marked := true; stolen := stolen g |}.
 
 (* reserve_port after observing value c (from the load or from a failed CAS) *)
 Definition reserve_next (g : gst) (l : lst) (h : handle) (p : params) (c : N) (e : ev)
   : gst * lst * list ev :=
   match reserve_check c (h_role h) with
-  | RsvAnother => (flag_creator g h, goto l (DrOwn h (WFail C_ANOTHER)), [e])
-  | RsvCleanup => (flag_creator g h, goto l (DrOwn h (WFail C_CLEANUP)), [e])
+  | RsvAnother => (g, goto l (CrFail h C_ANOTHER), [e])
+  | RsvCleanup => (g, goto l (CrFail h C_CLEANUP), [e])
   | RsvTry _ => (g, goto l (CrCas h p c), [e])
   end.
 
@@ -223,7 +220,7 @@ Definition step (t : nat) (g : gst) (l : lst) : option (gst * lst * list ev) :=
         let i := length (incs g) in
         Some ({| cur := Some i;
                  incs := incs g ++ [{| i_st := 0; i_par := p; i_hs := None; i_hr := None |}];
-                 unl := unl g; creator_failed := creator_failed g; saw_marked := saw_marked g; stolen := stolen g |},
+                 unl := unl g; saw_marked := saw_marked g; stolen := stolen g |},
               goto l (CrLoad {| h_inc := i; h_own := true; h_role := r; h_id := opi l |} p),
               [EAcc 1 B_MAP 0 KSwap NotAtomic NotAtomic 4 1 true])
       end
@@ -261,6 +258,11 @@ Definition step (t : nat) (g : gst) (l : lst) : option (gst * lst * list ev) :=
                [EAcc 11 B_STATE (st_loc h) KCas Relaxed Relaxed c new true])
     else Some (reserve_next g l h p (i_st x)
                  (EAcc 11 B_STATE (st_loc h) KCas Relaxed Relaxed (i_st x) new false))
+  | CrFail h code =>
+    (* the creator lost the race for its port (or an opener did): whoever is attached, or has
+       marked the connection, is responsible for removing the storage *)
+    Some (g, goto l (DrOwn (set_own h false) (WFail code)),
+          [EAcc 14 B_OWN (own_loc t h) KStore Relaxed Relaxed 0 0 true])
   | CrOwn h p =>
     let e := EAcc 12 B_OWN (own_loc t h) KLoad Relaxed Relaxed (bool_code (h_own h)) 0 true in
     if h_own h then Some (g, goto l (CrRel h), [e])
@@ -303,14 +305,14 @@ Definition step (t : nat) (g : gst) (l : lst) : option (gst * lst * list ev) :=
              | None => {| u_t := t; u_hinc := h_inc h; u_rm := None; u_st := 0; u_att := false |}
              end in
     let g' := {| cur := None; incs := incs g; unl := unl g ++ [u];
-                 creator_failed := creator_failed g; saw_marked := saw_marked g; stolen := stolen g |} in
+                 saw_marked := saw_marked g; stolen := stolen g |} in
     Some (g', finish l None,
           [EAcc 3 B_MAP 0 KSwap NotAtomic NotAtomic (match cur g with Some _ => 2 | None => 1 end) 0 true;
            ret_ev g' (why_code w)])
   end.
 
 Definition g_init : gst :=
-  {| cur := None; incs := []; unl := []; creator_failed := false; saw_marked := false; stolen := [] |}.
+  {| cur := None; incs := []; unl := []; saw_marked := false; stolen := [] |}.
 Definition l_init (p : list op) : lst := {| prog := p; opi := 0; at_pc := Idle; hs := [] |}.
 Definition init (progs : nat -> list op) : cfg gst lst := (g_init, fun t => l_init (progs t)).
 
